@@ -78,6 +78,15 @@ def items(tier, seed):
     # the multi-task wrapper handed to a single-task routine, as the multi-task schedulers do (select_task, then train)
     for name in ("ddpg", "td3_lap", "sac"):
         out.append(dict(name=f"mt-wrapper-{name}", kind="mt-wrapper", routine=name, seed=seed, caps=[3, 16] if q else [2, 3, 5, 16]))
+    # train_a2c end to end, budgets that are and are not a multiple of one rollout: every row of every rollout buffer handed to
+    # the learner is a step the sub-environments produced
+    vs4 = senv.scripts(4, "cTU", 1)
+    a2c_pairs = [[a, b] for a in vs4[:: 2 if q else 1] for b in vs4[:: 3 if q else 1]]
+    for ch in chunks(a2c_pairs, 10):
+        out.append(dict(name=f"a2c-loop-{ch[0][0]}-{ch[0][1]}", kind="a2c-loop", pairs=ch, seed=seed))
+    # training continued on a replay buffer that went through pickle (a checkpointed run that is resumed)
+    for name in ("ddpg", "td3_lap", "nature_dqn"):
+        out.append(dict(name=f"resume-pickled-{name}", kind="resume-pickled", routine=name, seed=seed, caps=[3, 4, 16] if q else [2, 3, 4, 5, 16]))
     # MR.Q creating its replay buffer itself (non-default horizon pairs): every learning window it could draw
     from vlib import mrq_windows
 
@@ -702,8 +711,109 @@ def mt_wrapper_item(item, col):
     col.sample(dict(kind="multi-task wrapper under a single-task routine", routine=name, schedules=schedules, capacities=item["caps"]))
 
 
+def resume_pickled_item(item, col):
+    """Run, pickle the buffer, load it, continue training on the loaded copy: it then holds the last min(n, N) transitions of
+    both runs together (what the environments produced), nothing else."""
+    import pickle
+    import types
+
+    name = item["routine"]
+    firsts = ["cccccc", "ccTccc", "cUcccT", "ccc"]
+    for cap, first in itertools.product(item["caps"], firsts):
+        second = "cTcc"
+        cfg = dict(buffer_size=cap, env_horizon=len(first) + 3, seed=1 + item["seed"], net_seed=item["seed"], learning_starts=10**6)
+        if name in D.DISCRETE:
+            cfg.update(batch_size=100, learning_starts=0)
+        r1 = D.run(name, first, **cfg)
+        col.tick(1, (name, cap, first))
+        if r1.error is not None:
+            col.outcome("runs_aborted_by_env_guard:" + r1.error)
+            continue
+        try:
+            rb2 = pickle.loads(pickle.dumps(r1.rb))
+        except Exception as e:  # noqa: BLE001 - saving is C19's business
+            col.outcome("resume_buffers_that_could_not_be_pickled")
+            continue
+        cfg2 = dict(cfg, env_horizon=len(second) + 3, seed=2 + item["seed"], replay_buffer=rb2, prebuilt=r1.prebuilt)
+        r2 = D.run(name, second, **cfg2)
+        if r2.error is not None:
+            col.outcome("runs_aborted_by_env_guard:" + r2.error)
+            continue
+        trans = r1.env.transitions() + r2.env.transitions()
+        fake = types.SimpleNamespace(name=name, env=types.SimpleNamespace(transitions=lambda trans=trans: trans), rb=rb2)
+        compare_buffer(fake, col, dict(warm=10**6, mode="continued on a pickled and reloaded buffer"), first + "+" + second)
+        col.outcome("resumed_runs_compared")
+        if len(r1.env.transitions()) > cap:
+            col.outcome("resumed_runs_whose_buffer_had_wrapped_before_the_save")
+    col.sample(dict(kind="resume on a pickled buffer", routine=name, capacities=item["caps"]))
+
+
+def a2c_loop_item(item, col):
+    from rl_blox.algorithm import a2c
+    from vlib import poison
+
+    poison.install()  # rows of a rollout buffer that were never written hold a sentinel, not whatever the heap held
+    entry = "train_a2c"
+    for pair in item["pairs"]:
+        for spu, total in ((2, 8), (2, 10), (3, 12), (3, 14), (3, 16)):
+            envs = make_vec([p * 6 for p in pair], False, gym.vector.AutoresetMode.NEXT_STEP, 40)
+            st = pg_state(envs.envs[0], False, item["seed"])
+            captured = []
+            real = a2c.prepare_a2c_batch
+
+            def wrap(rb, vf, last_obs, *a, **k):
+                captured.append({key: np.array(val) for key, val in rb.buffer.items()})
+                return real(rb, vf, last_obs, *a, **k)
+
+            a2c.prepare_a2c_batch = wrap
+            err = None
+            try:
+                with contextlib.redirect_stdout(io.StringIO()):
+                    a2c.train_a2c(envs, st.policy, st.policy_optimizer, st.value_function, st.value_function_optimizer, seed=1,
+                                  total_timesteps=total, steps_per_update=spu, log_frequency=None, progress_bar=False)
+            except Exception as e:  # noqa: BLE001
+                err = f"{type(e).__name__}: {str(e)[:200]}"
+            finally:
+                a2c.prepare_a2c_batch = real
+            col.tick(1, ("a2c-loop", tuple(pair), spu, total))
+            det = dict(scripts=pair, steps_per_update=spu, total_timesteps=total)
+            if err is not None:
+                col.violation(SIG.format(entry, "raised-on-a-well-behaved-environment"), dict(det, error=err))
+                envs.close()
+                continue
+            steps = [e for e in envs.vlog if e[0] == "step"]  # ("step", actions, obs (n_envs, 3), rewards, terms, truncs)
+            produced = [set() for _ in range(envs.num_envs)]
+            for e in envs.vlog:
+                obs = e[1] if e[0] == "reset" else e[2]
+                for i in range(envs.num_envs):
+                    produced[i].add(tuple(np.asarray(obs[i], dtype=np.float64).tolist()))
+            bad = None
+            for r, buf in enumerate(captured):
+                o = np.asarray(buf["obs"], dtype=np.float64)
+                col.outcome("a2c_rollout_buffers_handed_to_the_learner")
+                for j in range(o.shape[0]):
+                    for i in range(envs.num_envs):
+                        if tuple(o[j, i].tolist()) not in produced[i]:
+                            bad = dict(rollout=r, row=j, sub_environment=i, stored_observation=o[j, i].tolist())
+                            break
+                    if bad:
+                        break
+                if bad:
+                    break
+            if total % (spu * envs.num_envs) != 0:
+                col.outcome("a2c_runs_with_a_budget_that_is_no_multiple_of_one_rollout")
+            if bad is not None:
+                col.violation(SIG.format(entry, "rollout-row-not-produced-by-the-environment"), dict(det, **bad))
+            envs.close()
+    col.sample(dict(kind="train_a2c rollout buffers", pairs=item["pairs"][:2]))
+
+
 def work(item, col):
     k = item["kind"]
+    if k == "a2c-loop":
+        return a2c_loop_item(item, col)
+    if k == "resume-pickled":
+        return resume_pickled_item(item, col)
     if k == "mt-wrapper":
         return mt_wrapper_item(item, col)
     if k == "tabular-readback":
